@@ -215,6 +215,14 @@ func handlePayload(h *Handler, errResp errorResponder, p dataPayload, e xmlstrea
 	}
 	conn.readLock.Lock()
 	defer conn.readLock.Unlock()
+	if conn.recvClosed {
+		// Closed by the application between our lookup and now.
+		_, err := xmlstream.Copy(e, errResp.Error(stanza.Error{
+			Type:      stanza.Cancel,
+			Condition: stanza.ItemNotFound,
+		}))
+		return err
+	}
 	var inputErr base64.CorruptInputError
 	dataLen := base64.StdEncoding.DecodedLen(len(p.Data))
 	// If this would cause the buffer to grow beyond the maximum size, send back
